@@ -37,6 +37,11 @@ pub fn marker_tx(db: &Db, k: u64) -> Result<(), String> {
     if id > 0 {
         txn.create_edge(id - 1, r, id);
         txn.set_edge_property(id - 1, r, id, "k".into(), ndb_core::PropertyValue::Int(k as i64)).map_err(|e| e.to_string())?;
+        // a hub: node 0 gets a relationship in every commit, so that after several compactions
+        // its relationships are spread over several segments
+        if id > 1 {
+            txn.create_edge(0, r, id);
+        }
         // a fresh key on the first node: the set of keys it carries identifies the commits seen
         txn.set_node_property(0, format!("c{k}"), ndb_core::PropertyValue::Int(k as i64)).map_err(|e| e.to_string())?;
     }
